@@ -513,6 +513,14 @@ thm("C14", ["C14"], ["C14_no_fault", "C14_failed_call_changes_nothing", "C14_nul
 thm("C15", ["C14"], ["C15_balanced", "C15_single_owner", "C15_all_released", "C15_cleanup", "C15_cleanup_idempotent", "C14_no_fault", "C14_inert_object"])
 thm("C16", ["C14"], ["C16_alloc_failure", "C16_init_success", "C16_then_inert", "C14_no_fault"])
 thm("C17", ["C14"], ["C17_wiped_before_free", "C17_source_sizes", "SkinnyVerif.Api.factsSizes_wipeOK"])
+thm("C02", ["C10"], ["C10_mantis_set_key"])
+thm("C07", ["C07"], ["C07_skinny128", "C07_skinny64", "parallelBlocks_eq_ecb", "ecb_length", "C07_parallel_size"])
+thm("C08", ["C08"], ["C08_no_leak_events", "C08_table_complete"])
+thm("C09", ["C08"], ["C09_block_functions", "C09_table_complete", "C11_no_junk_in_loaders"])
+PROPS["C09"]["modules"].append("SkinnyVerif.Properties.C11")
+thm("C18", ["C18", "C13"], ["C18_no_mutable_statics", "C18_census_nonempty", "C18_parallel_crypt_read_only", "C18_mantis_parallel_crypt_read_only", "setVal_comm", "C13_deterministic"])
+thm("C19", ["C12", "C04", "C06"], ["C12_skinny128", "C12_skinny64", "C04_skinny128", "C04_skinny64", "C05_stream"])
+thm("C20", ["C06", "C07"], ["C05_stream", "C05_involution", "parallelBlocks_eq_ecb", "ecb_length"])
 thm("C11", ["C11"], ["C11_skinny128", "C11_skinny64", "C11_tweaked128", "C11_no_junk_in_loaders"])
 thm("C12", ["C12"], ["C12_skinny128", "C12_skinny64", "C12_tweaked128", "C12_tweaked64"])
 thm("C10", ["C10"], ["C10_skinny128_set_key", "C10_skinny64_set_key", "C10_null_key128", "C10_null_key64", "C10_mantis_set_key"])
